@@ -47,11 +47,17 @@ def run(ctx):
     failures, stats = validate_runs(ctx, runs)
     report_failures(ctx, pid, failures)
     mc = scen.agp_design_mc(ctx, pid)
+    if pid in ("C05", "C20"):
+        # design level for the geometric half: every evolvent image is the centre of a cell of the density-m grid, strictly inside
+        # the cube (EvolventAuto for all densities, EvolventMC outright on small grids); the affine map to the box is checked on the traces
+        from .evolvent import model_check
+        mc = model_check(ctx, pid)
     cov = {
         "states": mc["states"] + stats["states"], "transitions": mc["transitions"] + stats["states"],
         "traces_validated_against_impl": stats["runs"],
         "samples": [scen.sample_of(runs[0]), scen.sample_of(runs[len(runs) // 2]), scen.sample_of(runs[-1])],
-        "trials_validated": stats["trials"], "events_validated": stats["events"], "trials_by_dimension": stats["by_n"],
+        "trials_validated": stats["trials"], "events_validated": stats["events"], "events_by_kind": stats["kinds"],
+        "trials_by_dimension": stats["by_n"],
         "model_checking_configs": mc["configs"],
         "failing_clauses_of_other_properties": other_clause_failures(pid, failures),
         "explanation": EXPL[pid],
